@@ -1,0 +1,78 @@
+//! Verification hooks (only built with the `verif-hooks` feature).
+//!
+//! Writes submitted through io_uring are invisible to a system call observer. This module reports
+//! each of them, and its completion, to an observer loaded into the process (a function named
+//! `nomt_verif_uring_event`, looked up once with `dlsym`; absent observer: no effect).
+
+use super::{CompleteIo, IoKind, IoPacket};
+use std::sync::OnceLock;
+
+// kind: 0 = write submitted, 1 = write completed ok, 2 = write completed with error.
+// returns non-zero from a submission when the write must fail instead of being performed.
+type Observer = unsafe extern "C" fn(kind: i32, fd: i32, offset: u64, ptr: *const u8, len: u64) -> i32;
+
+fn observer() -> Option<Observer> {
+    static OBSERVER: OnceLock<Option<Observer>> = OnceLock::new();
+    *OBSERVER.get_or_init(|| {
+        let sym = unsafe {
+            libc::dlsym(
+                libc::RTLD_DEFAULT,
+                b"nomt_verif_uring_event\0".as_ptr() as *const libc::c_char,
+            )
+        };
+        if sym.is_null() {
+            None
+        } else {
+            Some(unsafe { std::mem::transmute::<*mut libc::c_void, Observer>(sym) })
+        }
+    })
+}
+
+fn write_parts(kind: &IoKind) -> Option<(i32, u64, *const u8)> {
+    match kind {
+        IoKind::Read(..) => None,
+        IoKind::Write(fd, pn, page) => Some((*fd, *pn, page.as_ptr())),
+        IoKind::WriteArc(fd, pn, page) => {
+            let page: &[u8] = &**page;
+            Some((*fd, *pn, page.as_ptr()))
+        }
+        IoKind::WriteRaw(fd, pn, page) => Some((*fd, *pn, page.as_ptr())),
+    }
+}
+
+/// Called before a command is handed to the ring. Returns `None` if the observer demanded a
+/// failure, in which case the failed completion has been delivered already.
+pub(super) fn on_submit(packet: IoPacket) -> Option<IoPacket> {
+    let Some(observer) = observer() else {
+        return Some(packet);
+    };
+    let Some((fd, pn, ptr)) = write_parts(&packet.command.kind) else {
+        return Some(packet);
+    };
+    let offset = pn * super::PAGE_SIZE as u64;
+    let fail = unsafe { observer(0, fd, offset, ptr, super::PAGE_SIZE as u64) } != 0;
+    if fail {
+        let IoPacket {
+            command,
+            completion_sender,
+        } = packet;
+        let _ = completion_sender.send(CompleteIo {
+            command,
+            result: Err(std::io::Error::from_raw_os_error(libc::EIO)),
+        });
+        return None;
+    }
+    Some(packet)
+}
+
+/// Called when a command completed, before the completion is delivered.
+pub(super) fn on_complete(complete: &CompleteIo) {
+    let Some(observer) = observer() else {
+        return;
+    };
+    if let Some((fd, pn, ptr)) = write_parts(&complete.command.kind) {
+        let kind = if complete.result.is_ok() { 1 } else { 2 };
+        let offset = pn * super::PAGE_SIZE as u64;
+        unsafe { observer(kind, fd, offset, ptr, super::PAGE_SIZE as u64) };
+    }
+}
